@@ -114,7 +114,16 @@ func runDeque(c Case) []Step {
 		e.afterOp()
 	}
 	for k := 0; k < c.Init; k++ {
-		push(true)
+		switch c.Build {
+		case "pf":
+			push(false)
+		case "fb":
+			force(true)
+		case "ff":
+			force(false)
+		default:
+			push(true)
+		}
 	}
 	for _, a := range c.Acts {
 		switch a {
@@ -187,6 +196,10 @@ func indexOf(l []int64, v int64) int {
 
 func dequeOracle(c Case, steps []Step) *fail {
 	n := len(c.Vars)
+	capacity := 0
+	if len(c.Opt) == 2 && c.Opt[0] == 'c' {
+		capacity = int(c.Opt[1] - '0')
+	}
 	var contents []int64
 	pushed := map[int64]bool{}
 	poppedAt := map[int64]int{}
@@ -228,16 +241,43 @@ func dequeOracle(c Case, steps []Step) *fail {
 	for t, s := range steps {
 		who := "Deque.Producer"
 		switch s.Act {
-		case "pb", "pf":
-			if s.Ob.Kind == "ok" {
+		case "pb", "pf", "fb", "ff":
+			force := s.Act == "fb" || s.Act == "ff"
+			back := s.Act == "pb" || s.Act == "fb"
+			switch {
+			case s.Ob.Kind == "ok":
+				if force {
+					isFull := capacity > 0 && len(contents) == capacity
+					if isFull != (s.Ob.Msg == "full") {
+						return &fail{"C20:iterator:destructive", fmt.Sprintf("Len()==cap was %v before %s, expected %v", s.Ob.Msg == "full", s.Act, isFull), t}
+					}
+					if isFull { // evict at the opposite end: a removal
+						var x int64
+						if back {
+							x, contents = contents[0], contents[1:]
+						} else {
+							x, contents = contents[len(contents)-1], contents[:len(contents)-1]
+						}
+						poppedAt[x] = t
+						for i := range relaxed {
+							if started[i] {
+								relaxed[i] = true
+							}
+						}
+					}
+				} else if capacity > 0 && len(contents) >= capacity {
+					return &fail{"C20:Deque.Push:unexpected-error", fmt.Sprintf("push accepted beyond capacity %d", capacity), t}
+				}
 				pushed[s.V] = true
-				if s.Act == "pb" {
+				if back {
 					contents = append(contents, s.V)
 				} else {
 					contents = append([]int64{s.V}, contents...)
 				}
-			} else if !(closed && s.Ob.Kind == "closed") {
-				return &fail{"C20:Deque.Push:unexpected-error", fmt.Sprintf("push reported %s", s.Ob), t}
+			case s.Ob.Kind == "closed" && closed:
+			case s.Ob.Kind == "full" && !force && !closed && capacity > 0 && len(contents) >= capacity:
+			default:
+				return &fail{"C20:Deque.Push:unexpected-error", fmt.Sprintf("%s reported %s", s.Act, s.Ob), t}
 			}
 		case "of", "ob":
 			if s.Ob.Kind == "some" {
